@@ -14,7 +14,7 @@ verus! {
 pub use compact_encoding::*;
 pub use intmap::IntMap;
 pub use ed25519_dalek::{SigningKey, VerifyingKey, Signature, PUBLIC_KEY_LENGTH, SECRET_KEY_LENGTH};
-broadcast use vp_std::group_std_gaps, compact_encoding::lemma_enc_uint_len, ed25519_dalek::group_key_lens, compact_encoding::axiom_enc_strings_empty;
+broadcast use vp_std::group_std_gaps, tree_model::axiom_blk_off_mono, compact_encoding::lemma_enc_uint_len, ed25519_dalek::group_key_lens, compact_encoding::axiom_enc_strings_empty;
 
 /*@ item dep:compact-encoding-2.2.0/src/lib.rs macro sum_encoded_size @*/
 /*@ item dep:compact-encoding-2.2.0/src/lib.rs macro map_encode @*/
@@ -353,6 +353,114 @@ impl Hypercore {
         assert(is_first_missing(&self.bitfield, self.header.hints.contiguous_length as int));
         assert(forall|k: int| k >= self.tree.length ==> !(#[trigger] self.bitfield.bit(k)));
         assert(self.tree.truncate_to <= 0xffff_ffff_ffff);
+    @*/
+}
+
+impl Hypercore {
+    /*@ fn src/core.rs Hypercore::byte_range ; nodecreases noisolation
+    tags: C01 C09 C10
+    result: r
+    requires:
+        !old(self).storage.failed@
+    ensures:
+        final(self).same_view(old(self)), final(self).bitfield == old(self).bitfield, final(self).tree == old(self).tree,
+        final(self).oplog == old(self).oplog, final(self).skip_flush_count == old(self).skip_flush_count,
+        final(self).storage.journal@ == old(self).storage.journal@,
+        final(self).storage.failed@ ==> r is Err,
+        r is Ok ==> index < old(self).tree.length && r->Ok_0.index == blk_off(index as int) && r->Ok_0.index + r->Ok_0.length == blk_off(index + 1)
+    sub `infos\.extend\(self\.storage\.read_infos_to_vec\(&instructions\)\?\);` => `vp_extend(&mut infos, self.storage.read_infos_to_vec(&instructions)?);`
+    loop 1:
+        invariant
+            !self.storage.failed@,
+            self.same_view(old(self)), self.bitfield == old(self).bitfield, self.tree == old(self).tree,
+            self.oplog == old(self).oplog, self.skip_flush_count == old(self).skip_flush_count,
+            self.storage.journal@ == old(self).storage.journal@
+    @*/
+
+    /*@ fn src/core.rs Hypercore::get
+    tags: C01 C10 C13
+    result: r
+    requires:
+        old(self).wf()
+    ensures:
+        final(self).bitfield == old(self).bitfield, final(self).tree == old(self).tree, final(self).header == old(self).header,
+        final(self).key_pair == old(self).key_pair, final(self).oplog == old(self).oplog,
+        // reading never writes
+        final(self).storage.journal@ == old(self).storage.journal@,
+        // C13: a block that is not held yields nothing, one Get event with that index, and no storage access at all
+        !old(self).bitfield.bit(index as int) ==> r is Ok && r->Ok_0 is None
+            && final(self).events.trace@ == old(self).events.trace@.push(Ev::Get { index: index })
+            && final(self).storage == old(self).storage,
+        // a held block: no event; the data file is read at the block's byte range
+        old(self).bitfield.bit(index as int) ==> final(self).events.trace@ == old(self).events.trace@,
+        old(self).bitfield.bit(index as int) && r is Ok ==> r->Ok_0 is Some
+            && final(self).storage.reads@.len() > 0 && final(self).storage.reads@.last() == (Store::Data, blk_off(index as int)),
+        // C10
+        final(self).storage.failed@ ==> r is Err
+    @*/
+}
+
+impl Hypercore {
+    /*@ fn src/core.rs Hypercore::clear ; noisolation
+    tags: C01 C02 C08 C10 C13
+    result: r
+    requires:
+        old(self).wf(), old(self).quiescent(),
+        start < end ==> start < old(self).tree.length && end <= 0x4000_0000_0000_0000
+    ensures:
+        // nothing to clear: a no-op
+        start >= end ==> r is Ok && *final(self) == *old(self),
+        // clearing announces nothing and never changes the size of the log
+        final(self).events.trace@ == old(self).events.trace@,
+        final(self).tree.length == old(self).tree.length && final(self).tree.byte_length == old(self).tree.byte_length
+            && final(self).key_pair == old(self).key_pair,
+        // C10
+        final(self).storage.failed@ ==> r is Err,
+        start < end && r is Ok ==> final(self).wf() && final(self).quiescent()
+            // C01: exactly the blocks of the range stop being held
+            && (forall|k: int| #![trigger final(self).bitfield.bit(k)] final(self).bitfield.bit(k) == (old(self).bitfield.bit(k) && !(start <= k < end))),
+        // C02: the oplog entry (commit point) comes first, then the hole is punched into the data file
+        start < end && r is Ok ==> final(self).storage.journal@.len() >= old(self).storage.journal@.len() + 2
+            && final(self).storage.journal@.subrange(0, old(self).storage.journal@.len() as int) == old(self).storage.journal@
+            && final(self).storage.journal@[old(self).storage.journal@.len() as int]
+                == (StoreOp::Write { store: Store::Oplog, off: 8192 + old(self).oplog.entries_byte_length,
+                        data: frame(clear_entry_enc(start, (end - start) as u64), false, Oplog::cur_hbit(old(self).oplog.header_bits)) })
+            // C01: the deleted byte range covers the cleared blocks and only blocks that are not held any more
+            && (exists|s2: int, e2: int| #![trigger blk_off(s2), blk_off(e2)] 0 <= s2 <= start && s2 < e2 <= old(self).tree.length
+                && (e2 >= end || e2 == old(self).tree.length)
+                && (forall|k: int| s2 <= k < e2 ==> !(#[trigger] final(self).bitfield.bit(k)))
+                && final(self).storage.journal@[old(self).storage.journal@.len() as int + 1]
+                    == (StoreOp::Delete { store: Store::Data, off: blk_off(s2), len: blk_off(e2) - blk_off(s2) })),
+        // commit point
+        r is Err && final(self).storage.journal@ == old(self).storage.journal@ ==> final(self).same_view(old(self))
+    sub `infos\.extend\(new_infos\);` => `vp_extend(&mut infos, new_infos);`
+    first:
+        let ghost start0 = start;
+        let ghost end0 = end;
+    before `// Now ready to flush`:
+        proof {
+            let j0 = old(self).storage.journal@;
+            let s2 = start as int; let e2 = end as int;
+            assert(0 <= s2 <= start0 && s2 < e2 <= old(self).tree.length && (e2 >= end0 || e2 == old(self).tree.length));
+            assert(forall|k: int| s2 <= k < e2 ==> !(#[trigger] self.bitfield.bit(k)));
+            assert(self.storage.journal@.len() == j0.len() + 2);
+            assert(self.storage.journal@.subrange(0, j0.len() as int) =~= j0);
+            assert(self.storage.journal@[j0.len() as int + 1] == (StoreOp::Delete { store: Store::Data, off: blk_off(s2), len: blk_off(e2) - blk_off(s2) }));
+        }
+        let ghost s_mid = *self;
+    last:
+        proof {
+            let j0 = old(self).storage.journal@;
+            let s2 = start as int; let e2 = end as int;
+            assert(self.same_view(&s_mid));
+            assert(forall|k: int| s2 <= k < e2 ==> !(#[trigger] self.bitfield.bit(k))) by {
+                assert(forall|k: int| self.bitfield.bit(k) == s_mid.bitfield.bit(k));
+            }
+            assert(self.storage.journal@.len() >= j0.len() + 2);
+            assert(self.storage.journal@[j0.len() as int] == s_mid.storage.journal@[j0.len() as int]);
+            assert(self.storage.journal@[j0.len() as int + 1] == s_mid.storage.journal@[j0.len() as int + 1]);
+            assert(self.storage.journal@.subrange(0, j0.len() as int) =~= j0);
+        }
     @*/
 }
 
